@@ -295,7 +295,7 @@ def run(run):
         exits = []
         loops_ = [fl for fl in T.for_loops(hb["body"]) if any(x is holder for x in T.walk(fl[3]))]
         scope = loops_[-1][3] if loops_ else hb["body"]
-        exits = [x for x in T.walk(scope) if x.get("k") in ("Break", "Continue", "Return") and not x.get("x")]
+        exits = [x for x in T.walk(scope) if x.get("k") in ("Break", "Continue", "Return") and x.get("ds") not in ("ForLoop", "WhileLoop")]
         if chain:
             exits += [x for x in T.walk(own["body"]) if x.get("k") == "Return" and any(y is m for y in T.walk(own["body"])) and not any(y is x for y in T.walk(m))]
         run.check("R2", "%s|replays-all-defs-in-order" % label, not bad and not exits, "every definition of the block must be replayed in program order (adaptors %s, early exits %d)" % (bad, len(exits)), F.loc(m))
